@@ -15,6 +15,25 @@ import (
 	"github.com/fatih/color"
 )
 
+// extOption returns ONE Option value (and one backing slice) per extension list for the whole life of the process:
+// callers keep and reuse their options, and the library must neither keep state in them nor modify the caller's slice.
+var extOptions = map[string]gtree.Option{}
+var extSlices = map[string][]string{}
+
+func extOption(s string) gtree.Option {
+	if o, ok := extOptions[s]; ok {
+		// the caller's slice must still be what the caller wrote
+		if strings.Join(extSlices[s], "\x00") != strings.Join(plusList(s), "\x00") {
+			panic("the library modified the caller's extension slice: " + s)
+		}
+		return o
+	}
+	sl := plusList(s)
+	extSlices[s] = sl
+	extOptions[s] = gtree.WithFileExtensions(sl)
+	return extOptions[s]
+}
+
 func plusList(s string) []string {
 	if s == "-" {
 		return nil
@@ -71,7 +90,7 @@ func runHist(spec string, massive bool) string {
 			// O,h,E,D,LD,LI,MD,MI,EXTS
 			opts := outOptions([]string{f[2], f[3], "0", f[4], f[5], f[6], f[7], "-"})
 			if f[8] != "-" {
-				opts = append(opts, gtree.WithFileExtensions(plusList(f[8])))
+				opts = append(opts, extOption(f[8]))
 			}
 			opts = append(opts, mopt...)
 			var w bytes.Buffer
@@ -206,7 +225,7 @@ func runHist(spec string, massive bool) string {
 			// o,E,D,N,LD,LI,MD,MI,EXTS,DOC
 			opts := outOptions([]string{f[1], f[2], f[3], f[4], f[5], f[6], f[7], "-"})
 			if f[8] != "-" {
-				opts = append(opts, gtree.WithFileExtensions(plusList(f[8])))
+				opts = append(opts, extOption(f[8]))
 			}
 			opts = append(opts, mopt...)
 			var w bytes.Buffer
